@@ -500,7 +500,7 @@ def r3(ctx, facts, cg, pred):
             n += 1
             op = size_operand(c)
             origins = classify_origin(facts, cg, b, op, callers_index)
-            key = "%s|%s" % (site_key(b, c.span), "::".join(nm.split("::")[-2:]))
+            key = "%s|%s" % (site_key(owner_body(facts, p, pred), c.span), "::".join(nm.split("::")[-2:]))
             w32 = sorted(o for o in origins if o.startswith("wire32"))
             unk = sorted(o for o in origins if o.startswith("unknown") or o == "param-of-entry")
             df = df_of(b, facts)
